@@ -602,6 +602,19 @@ pub fn drive(prop: Prop, shp: &[u8], shx: &[u8], hdr_ty: Ty) -> CaseResult {
             }, ());
         }
     }
+    // 2b. typed iteration as two fixed other types (the mismatch path; with an index it goes on after errors)
+    for other in [Ty::Point, Ty::PolygonZ] {
+        if other == hdr_ty {
+            continue;
+        }
+        if let Some(Ok(mut r)) = m.call("with_shx", || ShapeReader::with_shx(Dev::quiet(shp.to_vec()), Dev::quiet(shx.to_vec()))) {
+            with_ty!(other, T => {
+                if let Some(mut it) = m.call("iter_shapes_as()", || r.iter_shapes_as::<T>()) {
+                    m.drain("iter_shapes_as<other>+shx", cap, &mut it, |_| {});
+                }
+            }, ());
+        }
+    }
     // 3. read()
     if let Some(Ok(r)) = m.call("new", || ShapeReader::new(Dev::quiet(shp.to_vec()))) {
         let r = m.call("read", move || r.read().map(|v| v.len()));
